@@ -6,11 +6,15 @@ import (
 	"context"
 	"fmt"
 	"net"
+	"reflect"
+	"runtime"
 	"sort"
 	"strings"
 	"sync"
+	"sync/atomic"
 	"testing/synctest"
 	"time"
+	"unsafe"
 
 	"github.com/codelaboratoryltd/bng/pkg/pppoe"
 	bngradius "github.com/codelaboratoryltd/bng/pkg/radius"
@@ -33,7 +37,9 @@ import (
 // "Two paths at once": a second path that looked the session up before the first one finished
 // - the client's PADT (or an administrative TerminateByID) arriving while TerminateSession
 // is sending its own PADT (the sendPADT callback is the window, 1 s of retry delay in
-// production).
+// production). A second window, "X|Y": path Y starts, on its own goroutine, while path X waits
+// for the RADIUS server's answer to its Accounting-Stop (the peer is slow for that one request);
+// the answer is released once Y has finished or is waiting for a lock.
 
 type TeardownSys struct {
 	bubble
@@ -48,7 +54,8 @@ func NewTeardownSys(n int) *TeardownSys {
 			ev("CREATE", m, "none", true, 1), ev("AUTH", m, "none", true, 1), ev("ADDR", m, "none", true, 1),
 			ev("PADT", m, "padt", false, 1), ev("ADMIN", m, "admin", false, 1), ev("IDLETO", m, "idle", false, 1), ev("RDISC", m, "radiusdisc", false, 1),
 			ev("BYID", m, "admin", false, 1), ev("BYMAC", m, "admin", false, 1),
-			ev("ADMIN+PADT", m, "admin", false, 2), ev("IDLETO+BYID", m, "idle", false, 2))
+			ev("ADMIN+PADT", m, "admin", false, 2), ev("IDLETO+BYID", m, "idle", false, 2),
+			ev("ADMIN|PADT", m, "admin", false, 2), ev("IDLETO|PADT", m, "idle", false, 2))
 	}
 	s.events = append(s.events, ev("SHUTDOWN", 0, "shutdown", false, 1))
 	return s
@@ -72,6 +79,7 @@ type teardownInst struct {
 	mu     sync.Mutex
 	fast   map[string]bool           // the counting eBPF callback's map: client MAC -> entry present
 	inPADT func(sess *pppoe.Session) // what happens while TerminateSession sends its PADT
+	padts  atomic.Int32              // PADTs sent since the current overlap began
 	// harness memory: the session of each slot (id and pool key survive the session)
 	sid map[int]uint16
 	key map[int]string
@@ -97,6 +105,7 @@ func (s *TeardownSys) New() core.Instance {
 	td.SetIPPool(pool)
 	td.SetSessionManager(in.sm)
 	td.SetSendPADT(func(sess *pppoe.Session, tags []pppoe.Tag) {
+		in.padts.Add(1)
 		if f := in.inPADT; f != nil {
 			in.inPADT = nil // once
 			f(sess)
@@ -207,6 +216,16 @@ func (in *teardownInst) Apply(e core.Event) map[string]any {
 			in.td.TerminateSession(ss, pppoe.TerminateCauseIdleTimeout, "")
 			in.inPADT = nil
 		}
+	case "ADMIN|PADT":
+		if ss != nil {
+			in.overlap(func() { in.td.TerminateSession(ss, pppoe.TerminateCauseAdminReset, "administrative reset") },
+				func() { in.td.HandleClientPADT(ss, ss.ClientMAC, ss.ID) })
+		}
+	case "IDLETO|PADT":
+		if ss != nil {
+			in.overlap(func() { in.td.TerminateSession(ss, pppoe.TerminateCauseIdleTimeout, "") },
+				func() { in.td.HandleClientPADT(ss, ss.ClientMAC, ss.ID) })
+		}
 	case "SHUTDOWN":
 		in.td.TerminateAll(pppoe.TerminateCauseNASReboot, "shutdown")
 	default:
@@ -215,6 +234,43 @@ func (in *teardownInst) Apply(e core.Event) map[string]any {
 	synctest.Wait()
 	st1, sp1 := in.acct.counts()
 	return res(n, acked, skipped, diff(st1, st0), diff(sp1, sp0), nil)
+}
+
+// overlap runs first on its own goroutine; as soon as the peer holds the answer to first's
+// Accounting-Stop, second is started on another goroutine; the answer is released when second has
+// finished or waits for the teardown's mutex. If first sends no Stop, second simply runs after it.
+// Virtual time advances only while this goroutine sleeps: it sleeps one PADT retry delay each
+// time first has sent a PADT that is followed by such a delay, and never otherwise.
+func (in *teardownInst) overlap(first, second func()) {
+	st := peer.armStall(in.acct.nas)
+	var doneA, doneB atomic.Bool
+	cfg := pppoe.DefaultTeardownConfig()
+	in.padts.Store(0)
+	go func() { first(); doneA.Store(true) }()
+	slept := int32(0)
+	for !st.hit.Load() && !doneA.Load() {
+		runtime.Gosched()
+		if n := in.padts.Load(); n > slept && int(n) <= cfg.PADTRetries {
+			slept = n
+			time.Sleep(cfg.PADTRetryDelay)
+		}
+	}
+	peer.disarmStall(in.acct.nas)
+	go func() { second(); doneB.Store(true) }()
+	for i := 0; i < 2000000 && !doneB.Load() && in.mutexWaiters() == 0; i++ {
+		runtime.Gosched()
+	}
+	st.release.Store(true)
+	for !doneA.Load() || !doneB.Load() {
+		time.Sleep(time.Millisecond)
+	}
+}
+
+// mutexWaiters: goroutines parked on the teardown's mutex (sync.Mutex state word, waiter count
+// above the three flag bits).
+func (in *teardownInst) mutexWaiters() int32 {
+	f := reflect.ValueOf(in.td).Elem().FieldByName("mu")
+	return atomic.LoadInt32((*int32)(unsafe.Pointer(f.UnsafeAddr()))) >> 3
 }
 
 func (in *teardownInst) Observe() map[string]any {
